@@ -13,3 +13,12 @@
 (declare-fun hex (Str) Str)
 (declare-fun unhex (Str) Str)
 (assert (forall ((s Str)) (! (= (unhex (hex s)) s) :pattern ((hex s)))))
+;; section ghosts always
+; ghost cells (declared here so that contracts can name them)
+;; ghost cancelled (Array Int Bool)
+;; section context
+; A-STD: context.WithCancel(parent) returns a fresh child of parent together with its cancel function
+;; spec ctx_parent (Iface) Iface
+;; spec cancel_of (Iface) Int
+(declare-fun ctx_parent (Iface) Iface)
+(declare-fun cancel_of (Iface) Int)
